@@ -205,7 +205,7 @@ CLAIMED = {
     "C31": dict(
         technique="MIR dominance / edge-cut reachability in find_last_valid_footer + data-dependence of the hashed slice, returned slice and offsets + monotone-scan shape + data-dependence of hash_matches' single exit value (full-width digest equality)",
         text="Partial: a FooterSlice is returned only past decode(Some) of bytes[pos..pos+FOOTER_SIZE], the toc_len bounds edges and the hash_matches true edge over exactly "
-             "bytes[pos - toc_len .. pos], which is also the slice returned; the scan uses memrchr over bytes[..search_end] and every path back to it sets search_end = pos. CommitFooter::hash_matches has one exit value: a full-width equality between BLAKE3 of its whole slice argument and the whole toc_hash field.",
+             "bytes[pos - toc_len .. pos], which is also the slice returned; the scan uses memrchr over bytes[..search_end] and every path back to it sets search_end = pos. CommitFooter::hash_matches has one exit value: a full-width equality between BLAKE3 of its whole slice argument and the whole toc_hash field. The decoder the scan relies on reads every footer field at the writer's offset and width (rule shared with C30).",
         note="Not decided: the loop-invariant argument that the first accepted candidate ends at the highest offset, beyond these shape facts.",
         design_ref="DESIGN.md §4 C31"),
     "C39": dict(
